@@ -83,3 +83,52 @@ contract(M + "FortranReaderBase.put_item",
     raises=[],
     serves=["C07", "C11", "C12", "C13"],
 )
+
+contract(M + "Line.__init__",
+    types=dict(self="Line", line="str", linenospan="tuple[int,int]", label="int?", name="str?", reader="FortranReaderBase"),
+    modifies=["self.line", "self.span", "self.label", "self.name", "self.reader", "self.strline", "self.is_f2py_directive", "self.parse_cache"],
+    calls={"isinstance": "pure:bool"},
+    ensures={
+        "stripped_nonempty": "self.line == line.strip() and self.line != ''",
+        "span_label_name": "self.span == linenospan and self.label == label and self.name == name",
+        "fresh_cache": "all_absent(self.parse_cache)",
+    },
+    raises={"FortranReaderError": {"empty": "line.strip() == ''"}, "AssertionError": {}},
+    serves=["C09", "C12", "C20"],
+)
+
+contract(M + "CppDirective.__init__",
+    types=dict(self="CppDirective", line="str", linenospan="tuple[int,int]", reader="FortranReaderBase"),
+    modifies=["self.line", "self.span", "self.label", "self.name", "self.reader", "self.strline", "self.is_f2py_directive", "self.parse_cache"],
+    ensures={"text": "self.line == line.strip() and self.line != ''", "span": "self.span == linenospan", "no_label_name": "self.label is None and self.name is None"},
+    raises={"FortranReaderError": {"empty": "line.strip() == ''"}, "AssertionError": {}},
+    serves=["C14"],
+)
+
+contract(M + "FortranReaderBase.cpp_directive_item",
+    types=dict(self="FortranReaderBase", line="str", startlineno="int", endlineno="int"), returns="ref:CppDirective",
+    modifies=[],
+    ensures={"item": "result.line == line.strip() and result.span == (startlineno, endlineno) and not was_allocated(result)"},
+    raises={"FortranReaderError": {"empty": "line.strip() == ''"}, "AssertionError": {}},
+    serves=["C14"],
+)
+
+# the reader's cpp branch: precondition "the next physical line is a directive" is expressed on the stacked line
+contract(M + "FortranReaderBase.get_source_item@cpp",
+    types=dict(self="FortranReaderBase"), returns="ref:CppDirective?",
+    requires={"directive_on_top": "len(self.filo_line) > 0 and self.filo_line[len(self.filo_line) - 1].lstrip().startswith('#') "
+                                  "and self.filo_line[len(self.filo_line) - 1] != '' and not (self._format._is_free and self._format._is_strict)",
+              "inv": "INV_LC(self)"},
+    modifies=["self.filo_line", "self.linecount", "self.isclosed", "self.source_lines", "last_raw"],
+    ensures={
+        "is_directive_item": "result is not None and typeof_is(result, 'CppDirective')",
+        "span_is_lines_taken": "result.span[0] == old(self.linecount) + 1 and result.span[1] == self.linecount and result.span[1] >= result.span[0]",
+        "inv": "INV_LC(self)",
+        "single_line_span": "implies(not old(self.filo_line)[len(old(self.filo_line)) - 1].rstrip().endswith('\\\\'), result.span[1] == result.span[0])",
+    },
+    raises={"FortranReaderError": {}, "AssertionError": {}},
+    loops={0: dict(invariant={"count": "self.linecount >= startlineno and startlineno == old(self.linecount) + 1 and INV_LC(self)"},
+                   types={"line": "str?"})},
+    locals=dict(lines="list[str]"),
+    serves=["C12", "C14"],
+)
